@@ -20,7 +20,7 @@ REQUIRED = ['frontends/tui/controller.py:Controller.list_command', 'frontends/tu
 
 def plan(tier, seed):
     if tier == 'quick':
-        return [{'n': 8, 'n_each': [25, 60], 'queries': 14} for _ in range(16)]
+        return [{'n': 16, 'n_each': [25, 60], 'queries': 14} for _ in range(16)]
     return [{'n': 150, 'n_each': [30, 120], 'queries': 30} for _ in range(64)]
 
 
